@@ -6,7 +6,7 @@ From J5V.lib Require Import Outcome Json JsonPrint Base64 Civil Decimal.
 From J5V.model Require Import CodecTypes CodecEnc CodecEncSpec CodecEncDec.
 From J5V.model Require CodecDecScalar CodecDec CodecDecTree.
 From J5V.proofs Require CodecDecTime CodecDecDecimal.
-From J5V.proofs Require Import CodecEncProofs CodecEncDecProofs CodecEncTotal CodecEncDecTie CodecEncLex CodecEncInner CodecEncRep.
+From J5V.proofs Require Import CodecEncProofs CodecEncDecProofs CodecEncTotal CodecEncDecTie CodecEncLex CodecEncInner CodecEncRep CodecEncRepTie.
 Import ListNotations.
 Local Open Scope N_scope.
 
@@ -406,6 +406,19 @@ Theorem C01_full_statement_decided :
                     equiv_root any_inner print any_back env root m m').
 Proof. exact codec_full_decided. Qed.
 Print Assumptions C01_full_statement_decided.
+
+(* ... and over the decoder family's byte-level, Go-tied model on the encoder's text (default codec):
+   the preconditions on schema and message are the same two booleans *)
+Theorem C01_full_statement_bytes_decided :
+  forall fmt_float any_inner orc env,
+    float_text_ok fmt_float -> orc_float_ok fmt_float orc -> orc_time_ok orc -> orc_decimal_ok orc ->
+    inner_ok any_inner -> env_static_b env = true ->
+    forall fuel root m, rep_root_b any_inner print None env fuel root m = true ->
+      exists txt J, encode fmt_float any_inner env root m = Ok txt /\ txt = print J /\ wfb J = true /\
+        (CodecDecTree.jdepth J <= CodecDec.max_scan_depth ->
+         exists m', CodecDec.decode_bytes orc env root txt = Ok m' /\ equiv_root any_inner raw_dec None env root m m').
+Proof. exact codec_full_bytes_decided. Qed.
+Print Assumptions C01_full_statement_bytes_decided.
 
 (* The same with the inner Any encoding being the encoder itself on the payload message of a
    registered type (resolver reg and proto.Unmarshal abstract), nested n levels: inner_ok is no
